@@ -1,0 +1,42 @@
+/*
+ * Copyright (c) Meta Platforms, Inc. and affiliates.
+ *
+ * This source code is licensed under the MIT license found in the
+ * LICENSE file in the root directory of this source tree.
+ */
+
+//! Verification hooks (cargo feature `verif`, off by default).
+//!
+//! [`emit`] appends one JSON line per event to the file named by the
+//! environment variable `SCRUT_VERIF_TRACE`. Without that variable it is a
+//! no-op. The program is single threaded, hence the order of lines is the
+//! program order.
+
+use std::fs::OpenOptions;
+use std::io::Write;
+use std::sync::atomic::AtomicU64;
+use std::sync::atomic::Ordering;
+
+use serde_json::Value;
+use serde_json::json;
+
+static SEQ: AtomicU64 = AtomicU64::new(0);
+
+/// Append the event `kind` with `data` to the trace file, if any
+pub fn emit(kind: &str, data: Value) {
+    let Some(path) = std::env::var_os("SCRUT_VERIF_TRACE") else {
+        return;
+    };
+    let seq = SEQ.fetch_add(1, Ordering::SeqCst);
+    let mut line = json!({
+        "seq": seq,
+        "pid": std::process::id(),
+        "kind": kind,
+        "data": data,
+    })
+    .to_string();
+    line.push('\n');
+    if let Ok(mut file) = OpenOptions::new().create(true).append(true).open(path) {
+        let _ = file.write_all(line.as_bytes());
+    }
+}
